@@ -146,18 +146,15 @@ fn spec_step(mode: Mode, st: &mut [KS], op: &COp, id: u64, res: &Res) -> bool {
     match op {
         COp::Get(k) => match st[*k] {
             KS::Live(v) => *res == Res::Val(Some(v)),
-            KS::Expired => {
-                st[*k] = KS::Absent;
-                *res == Res::Val(None)
-            }
+            // (whether a read physically collects the expired entry is not judged: the state stays "expired",
+            // for which remove() may answer either way)
+            KS::Expired => *res == Res::Val(None),
             KS::Absent => *res == Res::Val(None),
         },
         COp::Contains(k) => match st[*k] {
             KS::Live(_) => *res == Res::Bool(true),
             KS::Expired => {
-                if !disk {
-                    st[*k] = KS::Absent;
-                }
+                let _ = disk;
                 *res == Res::Bool(false)
             }
             KS::Absent => *res == Res::Bool(false),
@@ -252,8 +249,16 @@ impl Sut {
     }
 }
 
+thread_local! {
+    /// One current-thread tokio runtime per task thread: today the cache futures never suspend, but code
+    /// that moved to tokio::fs / spawn_blocking would need a runtime to be polled on.
+    static RT: tokio::runtime::Runtime = tokio::runtime::Builder::new_current_thread().enable_all().build().expect("tokio runtime");
+}
+fn block_on<F: std::future::Future>(f: F) -> F::Output {
+    RT.with(|rt| rt.block_on(f))
+}
+
 fn do_op(c: &dyn AsyncCache<SimKey>, keys: &[SimKey], op: &COp, id: u64) -> Res {
-    use futures::executor::block_on;
     match op {
         COp::Get(k) => match block_on(c.get(&keys[*k])) {
             Ok(Some(b)) => id_of(&b),
@@ -305,7 +310,7 @@ impl Scenario for Conc {
         vec![
             "interleavings are explored at the granularity of the hook sites under sequential consistency; races inside a DashMap operation, inside a std lock region, and weak-memory effects of the Relaxed counters are not explored",
             "the return value of remove() on a physically present but expired entry is not judged",
-            "clear() is only generated for the memory cache (a disk put racing with clear loses a real race on the temp file)",
+            "an Err is tolerated only for an operation that overlapped a conflicting mutator (same key, or clear): e.g. a disk put whose temp file a concurrent clear swept away",
         ]
     }
     fn components(&self) -> Vec<(&'static str, &'static str)> {
@@ -352,9 +357,7 @@ impl Scenario for Conc {
                 }
                 73..=79 => COp::PutLong(k),
                 80..=93 => COp::Remove(k),
-                _ => {
-                    if disk { COp::Get(k) } else { COp::Clear }
-                }
+                _ => COp::Clear,
             }
         };
         let setup: Vec<COp> = match rng.below(10) {
@@ -443,16 +446,19 @@ fn run(case: &Case, ctx: &mut Ctx) -> Option<Violation> {
         }
     } else {
         let policy = if evict {
-            match case.sched_seed % 3 {
+            match case.sched_seed % 5 {
                 0 => EvictionPolicy::Lru,
                 1 => EvictionPolicy::Fifo,
-                _ => EvictionPolicy::Lfu,
+                2 => EvictionPolicy::Lfu,
+                3 => EvictionPolicy::Random,
+                _ => EvictionPolicy::Ttl,
             }
         } else {
             EvictionPolicy::Lru
         };
         let mut cfg = MemoryCacheConfig::new().with_max_entries(if evict { 2 } else { 1000 }).with_eviction_policy(policy);
-        cfg.max_memory_bytes = None;
+        // in the eviction arm one run in three is limited by bytes rather than by entries (make_room_for)
+        cfg.max_memory_bytes = if evict && (case.sched_seed / 5) % 3 == 0 { Some(2 * VLEN + 6) } else { None };
         match MemoryCache::<SimKey>::new(cfg) {
             Ok(c) => Sut::Mem(Arc::new(c)),
             Err(e) => panic!("harness: memory cache: {e}"),
@@ -467,9 +473,7 @@ fn run(case: &Case, ctx: &mut Ctx) -> Option<Violation> {
             COp::PutTtl0(k) => COp::PutTtl0(k % nk),
             COp::PutLong(k) => COp::PutLong(k % nk),
             COp::Remove(k) => COp::Remove(k % nk),
-            COp::Clear => {
-                if disk { COp::Get(0) } else { COp::Clear }
-            }
+            COp::Clear => COp::Clear,
         }
     };
 
@@ -610,13 +614,13 @@ fn run(case: &Case, ctx: &mut Ctx) -> Option<Violation> {
     let mut count = 0usize;
     let mut bytes = 0usize;
     for k in &keys {
-        if let Ok(Some(b)) = futures::executor::block_on(c.get(k)) {
+        if let Ok(Some(b)) = block_on(c.get(k)) {
             count += 1;
             bytes += b.len();
         }
     }
-    let size = futures::executor::block_on(c.size()).unwrap_or(usize::MAX);
-    let used = futures::executor::block_on(c.stats()).map(|s| s.memory_usage_bytes).unwrap_or(usize::MAX);
+    let size = block_on(c.size()).unwrap_or(usize::MAX);
+    let used = block_on(c.stats()).map(|s| s.memory_usage_bytes).unwrap_or(usize::MAX);
     ctx.event(|| json!({"k":"check","at":"quiescence","size":size,"usage":used,"retrievable":count,"retrievable_bytes":bytes}));
     if size != count {
         return Some(Violation::new("C11.books.size", "size_mismatch", sig("size_mismatch"), format!("after all tasks finished size()={size} but {count} entries are retrievable; preempted at [{}]; history: {}", preempt_sites.join(", "), hist_txt())).with_patch(patch));
@@ -643,7 +647,6 @@ fn open_container(dir: &std::path::Path) -> Result<DynamicContainer, String> {
 }
 
 fn do_cop(c: &DynamicContainer, ekeys: &[[u8; 16]], contents: &[Vec<u8>], op: &COp) -> Res {
-    use futures::executor::block_on;
     match op {
         COp::Get(k) => {
             let mut buf = vec![0u8; contents[*k].len() + 64];
